@@ -21,6 +21,7 @@ import (
 	"fmt"
 	"math/rand"
 	"os"
+	"strings"
 	"sync"
 
 	"github.com/skycoin/skycoin/src/cipher"
@@ -67,18 +68,25 @@ func blockSize(b *coin.SignedBlock) uint64 {
 type request struct {
 	fam   *family
 	list  string   // "<list index>/<profile>": with the seed, identifies the item list for replay
-	n     int      // number of requested items
-	sizes []uint64 // wire size of every requested item
+	n     int      // number of requested entries
+	sizes []uint64 // wire size of every requested item that can be sent at all, in request order (len(sizes) == n unless the constructor has to skip entries, see wideleg.go)
 	data  interface{}
+	// capLow: only for lists with entries the constructor has to skip (otherwise -1): the number
+	// of sendable items among the first min(n, cap) requested entries - what a constructor keeps
+	// that counts skipped entries against the item cap
+	capLow int
 	// derived
-	cum  []uint64 // cum[k] = encoded length of the message with the first k items, k <= min(n, cap)
-	full []byte   // EncodeMessage of the message with min(n, cap) items
+	cum  []uint64 // cum[k] = encoded length of the message with the first k sendable items, k <= min(len(sizes), cap)
+	full []byte   // EncodeMessage of the message with min(len(sizes), cap) items
 }
 
 type family struct {
 	name string
 	cap  int
 	gen  func(rng *rand.Rand, n int, profile int) *request
+	// genMixed (only for a constructor that has a notion of skipping entries): a list of len(skip)
+	// entries in which entry i is one the constructor must skip iff skip[i]
+	genMixed func(rng *rand.Rand, l *local, skip []bool) *request
 	// build calls the constructor under test and returns the message (as a gnet.Serializer) and its item count
 	build func(rq *request, max uint64) (gnet.Serializer, int)
 	// literal builds the message with the first k items without the constructor
@@ -124,7 +132,7 @@ func families() []*family {
 	fBlocks := &family{name: "GiveBlocks", cap: 128}
 	fBlocks.gen = func(rng *rand.Rand, n int, profile int) *request {
 		bs := make([]coin.SignedBlock, n)
-		rq := &request{fam: fBlocks, n: n, data: bs}
+		rq := &request{fam: fBlocks, n: n, data: bs, capLow: -1}
 		for i := range bs {
 			b := &bs[i]
 			b.Head.Version, b.Head.Time, b.Head.BkSeq, b.Head.Fee = 0, rng.Uint64(), uint64(i), rng.Uint64()
@@ -152,7 +160,7 @@ func families() []*family {
 	fTxns := &family{name: "GiveTxns", cap: 256}
 	fTxns.gen = func(rng *rand.Rand, n int, profile int) *request {
 		ts := make([]coin.Transaction, n)
-		rq := &request{fam: fTxns, n: n, data: ts}
+		rq := &request{fam: fTxns, n: n, data: ts, capLow: -1}
 		for i := range ts {
 			ts[i] = randTxn(rng, profile)
 			rq.sizes = append(rq.sizes, txnSize(&ts[i]))
@@ -172,18 +180,41 @@ func families() []*family {
 		addrs []daemon.IPAddr
 	}
 	fPeers := &family{name: "GivePeers", cap: 512}
+	validPeer := func(rng *rand.Rand, d *peersData, i int) {
+		ip := rng.Uint32()
+		if ip>>24 == 0 {
+			ip |= 1 << 24
+		}
+		port := uint16(1 + rng.Intn(65535))
+		d.peers = append(d.peers, pex.Peer{Addr: fmt.Sprintf("%d.%d.%d.%d:%d", byte(ip>>24), byte(ip>>16), byte(ip>>8), byte(ip), port), LastSeen: int64(i)})
+		d.addrs = append(d.addrs, daemon.IPAddr{IP: ip, Port: port})
+	}
 	fPeers.gen = func(rng *rand.Rand, n int, profile int) *request {
 		d := &peersData{}
-		rq := &request{fam: fPeers, n: n, data: d}
+		rq := &request{fam: fPeers, n: n, data: d, capLow: -1}
 		for i := 0; i < n; i++ {
-			ip := rng.Uint32()
-			if ip>>24 == 0 {
-				ip |= 1 << 24
-			}
-			port := uint16(1 + rng.Intn(65535))
-			d.peers = append(d.peers, pex.Peer{Addr: fmt.Sprintf("%d.%d.%d.%d:%d", byte(ip>>24), byte(ip>>16), byte(ip>>8), byte(ip), port), LastSeen: int64(i)})
-			d.addrs = append(d.addrs, daemon.IPAddr{IP: ip, Port: port})
+			validPeer(rng, d, i)
 			rq.sizes = append(rq.sizes, sizeIPAddr)
+		}
+		return rq
+	}
+	// d.peers = the requested entries, d.addrs = the addresses of those that are IPv4 ip:port
+	// strings, in request order; which entries are not is known by construction (notAnIPv4Addr)
+	fPeers.genMixed = func(rng *rand.Rand, l *local, skip []bool) *request {
+		d := &peersData{}
+		rq := &request{fam: fPeers, n: len(skip), data: d}
+		for i, sk := range skip {
+			if sk {
+				addr, class := notAnIPv4Addr(rng)
+				l.counts["wide.GivePeers.skipworthy."+class]++
+				d.peers = append(d.peers, pex.Peer{Addr: addr, LastSeen: int64(i)})
+				continue
+			}
+			validPeer(rng, d, i)
+			rq.sizes = append(rq.sizes, sizeIPAddr)
+			if i < fPeers.cap {
+				rq.capLow++
+			}
 		}
 		return rq
 	}
@@ -198,7 +229,7 @@ func families() []*family {
 	hashGen := func(f *family) func(rng *rand.Rand, n int, profile int) *request {
 		return func(rng *rand.Rand, n int, profile int) *request {
 			hs := make([]cipher.SHA256, n)
-			rq := &request{fam: f, n: n, data: hs}
+			rq := &request{fam: f, n: n, data: hs, capLow: -1}
 			for i := range hs {
 				hs[i] = randHash(rng)
 				rq.sizes = append(rq.sizes, sizeHash)
@@ -247,7 +278,7 @@ func (l *local) merge(r *vf.Run) {
 // prepare computes the cumulative sizes from the wire-format model and cross-checks them
 // against the encoder (message built as a literal, no truncation code involved)
 func prepare(r *vf.Run, rq *request, rng *rand.Rand) bool {
-	kmax := rq.n
+	kmax := len(rq.sizes)
 	if kmax > rq.fam.cap {
 		kmax = rq.fam.cap
 	}
@@ -305,7 +336,7 @@ func limitsFor(rq *request, rng *rand.Rand, extra int) []uint64 {
 	return out
 }
 
-func check(r *vf.Run, l *local, rq *request, max uint64) {
+func check(r *vf.Run, l *local, prefix string, rq *request, max uint64) {
 	f := rq.fam
 	attrs := map[string]string{"message": f.name, "max": fmt.Sprint(max), "requested": fmt.Sprint(rq.n), "list": rq.list}
 	var m gnet.Serializer
@@ -324,7 +355,7 @@ func check(r *vf.Run, l *local, rq *request, max uint64) {
 		r.Violation("encode-error", attrs, nil)
 		return
 	}
-	judge(r, l, "", rq, max, enc, k, attrs)
+	judge(r, l, prefix, rq, max, enc, k, attrs)
 }
 
 // judge applies (a), (b), (c) to one encoded message enc (the complete frame: length prefix,
@@ -366,8 +397,10 @@ func judge(r *vf.Run, l *local, prefix string, rq *request, max uint64, enc []by
 		r.Violation("not-a-prefix-of-request", attrs, nil)
 		return false
 	}
-	// (c) longest
-	if k < kmax && rq.cum[k+1] <= max {
+	// (c) longest. Where the constructor has to skip entries the statement does not say whether
+	// the item cap counts the requested entries or the items sent: both are accepted (k == capLow
+	// is the longest prefix under the first reading)
+	if k < kmax && rq.cum[k+1] <= max && !(rq.capLow >= 0 && k == rq.capLow) {
 		fit := k
 		for fit < kmax && rq.cum[fit+1] <= max {
 			fit++
@@ -380,10 +413,15 @@ func judge(r *vf.Run, l *local, prefix string, rq *request, max uint64, enc []by
 	l.distinct[fmt.Sprintf("%s:%d:%d:%d", name, rq.n, rq.cum[len(rq.cum)-1], k)] = struct{}{}
 	// classes
 	switch {
-	case k == rq.n:
+	case k == len(rq.sizes):
 		l.counts[name+".untruncated"]++
+	case rq.capLow >= 0 && k == rq.capLow && k < kmax && rq.cum[k+1] <= max:
+		l.counts[name+".capped_by_item_limit_counting_skipped_entries"]++
 	case k == f.cap && (k == kmax) && rq.n > f.cap && (max >= rq.cum[k]):
 		l.counts[name+".capped_by_item_limit"]++
+		if rq.capLow >= 0 && rq.capLow < k {
+			l.counts[name+".capped_by_item_limit_counting_sent_items"]++
+		}
 	case k == 0:
 		l.counts[name+".truncated_to_zero"]++
 	default:
@@ -431,6 +469,25 @@ func main() {
 			rp.Done("C23", r.Violations())
 		}
 		var idx, profile int
+		if strings.HasPrefix(f.Attrs["list"], "w") {
+			// a wide list (wideleg.go): a function of seed, family and index
+			if _, err := fmt.Sscanf(f.Attrs["list"], "w%d/", &idx); err != nil {
+				fmt.Fprintln(os.Stderr, "replay: bad list attribute:", err)
+				os.Exit(3)
+			}
+			for _, fam := range fams {
+				if fam.name != f.Attrs["message"] {
+					continue
+				}
+				rq, _, _, ok := wideRequest(r, fam, newLocal(), idx)
+				if !ok || uint64(rq.n) != f.U64("requested") || rq.list != f.Attrs["list"] {
+					fmt.Fprintln(os.Stderr, "replay: could not rebuild the item list")
+					os.Exit(3)
+				}
+				check(r, newLocal(), "wide.", rq, f.U64("max"))
+			}
+			rp.Done("C23", r.Violations())
+		}
 		if _, err := fmt.Sscanf(f.Attrs["list"], "%d/%d", &idx, &profile); err != nil {
 			fmt.Fprintln(os.Stderr, "replay: bad list attribute:", err)
 			os.Exit(3)
@@ -449,7 +506,7 @@ func main() {
 				fmt.Fprintln(os.Stderr, "replay: could not rebuild the item list")
 				os.Exit(3)
 			}
-			check(r, newLocal(), rq, f.U64("max"))
+			check(r, newLocal(), "", rq, f.U64("max"))
 		}
 		rp.Done("C23", r.Violations())
 	}
@@ -487,7 +544,7 @@ func main() {
 		}
 		limits := limitsFor(rq, rng, extraLimits)
 		for _, max := range limits {
-			check(r, l, rq, max)
+			check(r, l, "", rq, max)
 		}
 		l.counts[j.fam.name+".lists"]++
 		l.counts["pairs"] += int64(len(limits))
@@ -499,6 +556,17 @@ func main() {
 	for _, l := range locals {
 		l.merge(r)
 	}
+	// lists around and beyond every item cap, with entries the constructor has to skip (wideleg.go)
+	for _, l := range wideLeg(r, fams) {
+		l.merge(r)
+	}
+	for _, f := range fams {
+		if f.genMixed != nil {
+			name := "wide." + f.name
+			r.Count(name+".item_cap_readings_observed", r.Get(name+".capped_by_item_limit_counting_skipped_entries")+r.Get(name+".capped_by_item_limit_counting_sent_items"))
+		}
+	}
+	wideFloors(r, fams)
 	for _, l := range <-nodeDone {
 		if l != nil {
 			l.merge(r)
@@ -511,6 +579,8 @@ func main() {
 	r.Sample(map[string]interface{}{"message": "AnnounceTxns", "requested": 3, "max": 76, "expect": "2 hashes: 12 + 2*32 = 76 bytes fits, 108 does not"})
 	r.Sample(map[string]interface{}{"message": "AnnounceTxns", "requested": 3, "max": 75, "expect": "1 hash (44 bytes); 2 hashes need 76"})
 	r.Sample(map[string]interface{}{"message": "GivePeers", "requested": 600, "max": 262144, "expect": "512 peers (item cap), 12 + 512*6 bytes"})
+	r.Sample(map[string]interface{}{"leg": "wide", "message": "GivePeers", "requested": "1024 entries: 100 IPv6 / host name / malformed addresses, then 924 IPv4 ip:port", "max": 262144,
+		"expect": "the first 412 or the first 512 IPv4 entries in request order (the cap counts requested entries or sent items), nothing else - in particular no 0.0.0.0:0"})
 
 	for _, f := range fams {
 		r.Floor(f.name+".lists", int64(listsPerFam*9/10))
@@ -526,10 +596,10 @@ func main() {
 	r.Floor("GiveTxns.lists_larger_than_default_limit", 1)
 	r.Floor("pairs", int64(r.Pick(100000, 5000000)))
 
-	r.Finish("item lists of 0,1,2,3,cap-1,cap,cap+1,600 and random lengths with small/typical/large items; limits at every cumulative encoded size +-0..5 bytes, random limits, the production default 262144 +-1 and huge values up to 2^64-1; a case is distinct by (message type, item list, number of items kept); fit is judged on len(gnet.EncodeMessage(m)) exactly as sendMessage does. Handler leg: real nodes (default limits 256 KiB out / 1 MiB in, and seeded small outgoing limits at and just above the smallest accepted value) on a harness-built chain and pool answer a raw wire peer's GETB, GETT, ANNT, GIVT and GETP; every frame on the wire is compared with the configured outgoing limit and every reply with the longest fitting prefix of the candidate items (blocks after 'last', known pool transactions in request order, unknown hashes in announcement order, hashes of newly accepted transactions, peer count)",
+	r.Finish("item lists of 0,1,2,3,cap-1,cap,cap+1,600 and random lengths with small/typical/large items; limits at every cumulative encoded size +-0..5 bytes, random limits, the production default 262144 +-1 and huge values up to 2^64-1; a case is distinct by (message type, item list, number of items kept); fit is judged on len(gnet.EncodeMessage(m)) exactly as sendMessage does. Wide lists: for every constructor lists of cap-1, cap, cap+1, 2*cap, 2*cap+1, 3*cap+7, cap+skipped and random lengths beyond the cap, and for NewGivePeersMessage (the constructor that skips entries) every such length with unsendable peer addresses of 17 classes mixed in as leading / trailing / alternating / sparse / half / dense / block across the cap / single at the cap boundary / all; the message must be byte for byte the longest fitting prefix of the sendable requested items in request order, at most cap items. Handler leg: real nodes (default limits 256 KiB out / 1 MiB in, and seeded small outgoing limits at and just above the smallest accepted value) on a harness-built chain and pool answer a raw wire peer's GETB, GETT, ANNT, GIVT and GETP; every frame on the wire is compared with the configured outgoing limit and every reply with the longest fitting prefix of the candidate items (blocks after 'last', known pool transactions in request order, unknown hashes in announcement order, hashes of newly accepted transactions, peer count)",
 		"handler leg: gnet refuses an oversized message and closes the connection, so a reply that is missing on two connections in a row although candidate items fit counts as a violation; a connection closed once is retried (counter node.connection_closed_by_node)",
 		"handler leg: the peer selection of GIVP is random, so only its count, distinctness and membership in the node's peer list are judged",
 		"limits below 12 bytes (the encoded empty message: length prefix, id, item count) are outside the property's quantifier",
-		"peer lists contain only well-formed IPv4 ip:port strings (the constructor skips others, which the statement does not cover)",
+		"wide lists: peer entries that are not IPv4 a.b.c.d:port strings (IPv6 literals, host names, empty, missing / empty / overflowing / negative / non-numeric port, missing ip, wrong octets, garbage) can not be sent and must be skipped; the statement does not say whether the item cap counts requested entries or sent items, so both longest prefixes are accepted; port 0, IPv4-mapped IPv6 and leading zeros are not used (convertibility undocumented)",
 		"item sizes come from the documented wire format and are cross-checked against the encoder on every list; a disagreement makes the run inconclusive rather than violated")
 }
